@@ -32,7 +32,7 @@ REQUIRED_COUNTERS = {"quick": ["round_trips", "value_points_compared", "backtick
                      "thorough": ["round_trips", "value_points_compared", "backtick_names", "all_names_quoted_round_trips"]}
 SHARD_TIMEOUT = {"quick": 900, "thorough": 3000}
 
-AVARS = ["x", "y_1", "<state>y", "<p>x", "<t>", "<dt>", "<ret_state>y", "kk"]
+AVARS = ["x", "y_1", "<state>y", "<p>x", "<t>", "<dt>", "<ret_state>y", "kk", "info", "<p>inf_norm", "nan_seen", "e1", "E"]
 BVARS = ["<cond>c", "flag", "<cond>", "<cond>_0"]       # (<cond> alone is what CodeBuilder.if_ issues first)
 ARRS = ["arr", "<state>vec"]
 MATS = ["mat"]
